@@ -347,6 +347,64 @@ print_codomain(const char *name, theta_chain_t *ch)
     print_j(&ch->codomain.E2);
 }
 
+/* evaluation routines against each other on one point: (a) eval_no_help == eval(Help = P + K1_4),
+   (b) [4]F(P) == F([4]P) (F([4]P) through the special-case routine when a component vanishes) */
+static void
+evalcmp_point(theta_chain_t *Fc, theta_couple_curve_t *E, theta_couple_jac_point_t *P)
+{
+    theta_couple_point_t r_nh, r_h, xz, help, r4, rs, in4;
+    theta_couple_jac_point_t tmp, P4;
+    theta_chain_eval_no_help(&r_nh, Fc, P, E);
+    ADD(&tmp.P1, &P->P1, &Fc->first_step.xyK1_4.P1, &E->E1);
+    ADD(&tmp.P2, &P->P2, &Fc->first_step.xyK1_4.P2, &E->E2);
+    couple_jac_to_xz(&help, &tmp);
+    couple_jac_to_xz(&xz, P);
+    theta_chain_eval(&r_h, Fc, &xz, &help);
+    int same = ec_is_equal(&r_nh.P1, &r_h.P1) && ec_is_equal(&r_nh.P2, &r_h.P2);
+    double_couple_jac_point_iter(&P4, 2, E, P);
+    couple_jac_to_xz(&in4, &P4);
+    if (fp2_is_zero(&in4.P1.z)) ec_set_zero(&in4.P1);
+    if (fp2_is_zero(&in4.P2.z)) ec_set_zero(&in4.P2);
+    if (ec_is_zero(&in4.P1) || ec_is_zero(&in4.P2)) theta_chain_eval_special_case(&rs, Fc, &in4, E);
+    else theta_chain_eval_no_help(&rs, Fc, &P4, E);
+    ec_dbl_iter(&r4.P1, 2, &Fc->codomain.E1, &r_nh.P1);
+    ec_dbl_iter(&r4.P2, 2, &Fc->codomain.E2, &r_nh.P2);
+    int lin = ec_is_equal(&r4.P1, &rs.P1) && ec_is_equal(&r4.P2, &rs.P2);
+    fprintf(OUT, " %d%d", same, lin);
+}
+
+/* point classes: generic, components in K1_4.Pi, components in K2_4.Pi + E[2] (there the gluing image has a
+   vanishing theta coordinate and gluing_eval_point(_no_help) take their rare normalisation branch), kernel points */
+static void
+evalcmp(theta_chain_t *Fc, theta_couple_curve_t *E)
+{
+    ec_basis_t bas = BASIS_EVEN;
+    jac_point_t gP, gQ, gen, gen2, s2, K1_2, K2s;
+    lift_basis(&gP, &gQ, &bas, &E->E1);
+    ADD(&gen, &gP, &gQ, &E->E1);
+    DBL(&s2, &gP, &E->E1);
+    ADD(&gen, &gen, &s2, &E->E1);
+    ADD(&gen2, &gen, &gQ, &E->E1);
+    theta_couple_jac_point_t K1 = Fc->first_step.xyK1_4, K2 = Fc->first_step.xyK2_4, P;
+    DBL(&K1_2, &K1.P1, &E->E1);
+    ADD(&K2s, &K2.P1, &K1_2, &E->E1);
+    fprintf(OUT, " evalcmp");
+    P.P1 = gen;   P.P2 = gen2;  evalcmp_point(Fc, E, &P);
+    P.P1 = K1.P1; P.P2 = gen;   evalcmp_point(Fc, E, &P);
+    P.P1 = gen;   P.P2 = K1.P2; evalcmp_point(Fc, E, &P);
+    P.P1 = K2.P1; P.P2 = gen;   evalcmp_point(Fc, E, &P);
+    P.P1 = K2s;   P.P2 = gen;   evalcmp_point(Fc, E, &P);
+    P.P1 = gen;   P.P2 = K2.P2; evalcmp_point(Fc, E, &P);
+    P.P1 = K1.P1; P.P2 = K2.P2; evalcmp_point(Fc, E, &P);
+    theta_couple_point_t r;
+    P = K2;
+    theta_chain_eval_no_help(&r, Fc, &P, E);
+    fprintf(OUT, " %d", ec_is_zero(&r.P1) && ec_is_zero(&r.P2));
+    P = K1;
+    theta_chain_eval_no_help(&r, Fc, &P, E);
+    fprintf(OUT, "%d", ec_is_zero(&r.P1) && ec_is_zero(&r.P2));
+}
+
 /* theta.e2e len u nrand x1..  : Kani kernel (P, theta(P)/u) on E0 x E0 as in fixed_degree_isogeny */
 static void
 op_theta_e2e(int ntok, char **tok)
@@ -439,6 +497,7 @@ op_theta_e2e(int ntok, char **tok)
             print_fp2(&e4);
         }
     }
+    evalcmp(&c1, &E01);
     fprintf(OUT, "\n");
     free(c1.steps); free(c2.steps); free(c3.steps); free(c4.steps);
 done:
